@@ -124,3 +124,31 @@ Definition conflicting (a b : ev) : bool :=
   end.
 
 Definition next_ev (t : thread) : option ev := match snd t with e :: _ => Some e | [] => None end.
+
+(* ---- the step structure model/Linear.v assumes of a request (C12_linearisation) ----
+   one critical section of the container's read lock that contains every read of the service
+   list and of a route slice, the service list first; nothing of the registration state is
+   read after it was left *)
+Definition reads_registration (e : ev) : bool :=
+  match e with Rd LWebServices _ | Rd LRoutes _ => true | _ => false end.
+Fixpoint split_at_rel_ws (p : list ev) : list ev * list ev :=
+  match p with
+  | [] => ([], [])
+  | Rel WS R :: rest => ([], rest)
+  | e :: rest => let (a, b) := split_at_rel_ws rest in (e :: a, b)
+  end.
+Definition selection_shape (p : list ev) : bool :=
+  match p with
+  | Acq WS R :: rest =>
+      let (inside, after) := split_at_rel_ws rest in
+      match filter reads_registration inside with
+      | Rd LWebServices _ :: _ => negb (existsb reads_registration after)
+      | _ => false
+      end
+  | _ => false
+  end.
+Definition is_dispatch_path (name : string) : bool :=
+  orb (String.prefix "Container.dispatch[" name) (String.prefix "Container.Dispatch[" name).
+Definition selection_shapes_ok (t : list (string * list ev)) : bool :=
+  existsb (fun np => is_dispatch_path (fst np)) t
+  && forallb (fun np => if is_dispatch_path (fst np) then selection_shape (snd np) else true) t.
